@@ -107,4 +107,12 @@ theorem window_lt (h : Bytes) (c i : Nat) (hle : c + i ≤ 8 * h.length) :
     omega
   rwa [hl] at this
 
+/-- the `Nat` transcription used here agrees with b-dirs' BitVec transcription, whose `mkmask` is the
+definition REGENERATED from /repo/ipld/unixfs/hamt/util.go on every run (`Gen.C15.mkmask`) -/
+theorem nextAux_eq_c15 (h : Bytes) (c i : Nat) (hle : c + i ≤ h.length * 8) :
+    (nextAux (i + 1) h c i).1 = C15.nextBits (h.map (·.toBitVec)) (i + 1) c i := by
+  rw [nextAux_eq_window_fuel h (i + 1) c i (Nat.lt_succ_self i) hle,
+    C15.nextBits_eq_window (h.map (·.toBitVec)) c i (by simpa using hle)]
+  rfl
+
 end C33
